@@ -39,6 +39,12 @@ func (h *initErrorHandler) ServeHTTP(writer http.ResponseWriter, request *http.R
 	response := &interop.ErrorInvokeResponse{Headers: headers, FunctionError: fnError, Payload: errorBody}
 
 	runtime := h.registrationService.GetRuntime()
+	if runtime == nil {
+		// no runtime is registered (not launched yet, or cleared by a reset): the call is illegal in this state
+		rendering.RenderForbiddenWithTypeMsg(writer, request, rendering.ErrorTypeInvalidStateTransition, StateTransitionFailedForRuntimeMessageFormat,
+			runtimeNotRegisteredStateName, core.RuntimeInitErrorStateName, runtimeNotRegisteredError)
+		return
+	}
 
 	// remove once Languages team change the endpoint to /restore/error
 	// when an exception is throw while executing the restore hooks
